@@ -17,7 +17,7 @@ THEOREMS = ["C07_plan_covers_requested_columns", "C13_solve_wellFormed", "C13_so
             "TInvO.sub_comb", "C07_ranges_below_partial", "C07_no_nulls_partial",
             "columnHull_spec", "nullMapping_above", "forest_init_columns", "forestData_value", "forest_column_without_nulls",
             "C07_no_nulls_single_column_init", "C07_no_nulls_partial_init", "buildTable_cells_for", "C07_noClustering_no_nulls",
-            "scaleValue_nonneg", "fitColumn_nonneg", "fitColumn_no_null", "fitTable_cell", "C07_synthesize_noClustering_no_nulls"]
+            "scaleValue_nonneg", "fitColumn_nonneg", "fitColumn_no_null", "fitTable_cell", "C07_synthesize_noClustering_no_nulls", "C07_simple_plans_schema"]
 PARTIAL = ["totality (that sample() completes) is not a Lean theorem: the composed model `buildTable` reproduces sample() value for value (S-sampleN) "
            "and the schema clause is proved of it (C07_buildTable_columns: the assembled table has exactly the plan's columns; with "
            "C13_solve_wellFormed / C07_plan_covers_requested_columns: every input column once); cells: decoded per kind, nulls only from the "
